@@ -1,18 +1,51 @@
 import Log4rsModel.Json.LemmasHist
+import Log4rsModel.Json.LemmasGrammar
 /-
 C12 — JSON encoder: one record, one line, and the fields round-trip exactly.
 Only property theorems and non-vacuity examples live here; helpers are in Json/Lemmas*.lean.
-All theorems are unconditional: they hold for every environment and record, i.e. for arbitrary
-strings (all Unicode scalar values) in every text position, every level, every presence pattern of
-the optional fields, every MDC association list.
+
+Quantifier: every environment and record — arbitrary strings (all Unicode scalar values) in every text
+position, the message as any sequence of `write_str` pieces, every level, every presence pattern of
+the optional fields, named or unnamed thread, every MDC.  The only hypothesis that appears is
+`MdcIsMap env` (the thread's MDC has no key twice — it is a `HashMap`), and only where a theorem
+speaks of reading the MDC back *as a map*.
+
+Which theorems carry the statement: `C12_one_line`, `C12_one_line_bytes`, `C12_single_newline`
+(one line, nothing raw below 0x20), `C12_line_is_json`, `C12_reader_is_the_grammar`,
+`C12_string_reader_is_the_grammar`, `C12_unescape_escape` (what "JSON" and "parses back" mean),
+`C12_fields_roundtrip`, `C12_members_in_order`, `C12_mdc_map_semantics`, `C12_message_pieces_irrelevant`
+(the fields come back exactly), `C12_absent_omitted`, `C12_no_placeholder`, `C12_level_names`.
+Bookkeeping about the executable Spec and the model (no false alarm when code = model; facts used by
+the `seq` correspondence cases): `C12_one_line_check`, `C12_model_satisfies_spec`,
+`C12_escape_injective`, `C12_escaped_exactly`, `C12_cut_output_is_prefix`.
 -/
 namespace Log4rs.Json
 
-/-- One line: the output is a body followed by exactly one newline, and no character of the body is
-    below 0x20 — no raw newline or control character, whatever the fields contain. -/
+/-- One line: the output is the object text followed by exactly one newline, and no character of the
+    object text is below 0x20 — no raw newline or C0 control character, whatever the fields contain. -/
 theorem C12_one_line (env : Env) (r : Record) :
-    ∃ body, jsonLine env r = body ++ ['\n'] ∧ ∀ c ∈ body, c.toNat ≥ 0x20 :=
-  ⟨object (messageMembers env r), rfl, body_printable env r⟩
+    jsonLine env r = object (messageMembers env r) ++ ['\n'] ∧
+    ∀ c ∈ object (messageMembers env r), c.toNat ≥ 0x20 :=
+  ⟨rfl, body_printable env r⟩
+
+/-- The same on the bytes handed to the writer (UTF-8): everything before the final byte 0x0A is a
+    byte ≥ 0x20, so the only line feed — and the only byte below 0x20 — is the last one. -/
+theorem C12_one_line_bytes (env : Env) (r : Record) :
+    utf8 (jsonLine env r) = utf8 (object (messageMembers env r)) ++ [0x0A] ∧
+    ∀ b ∈ utf8 (object (messageMembers env r)), 0x20 ≤ b := by
+  constructor
+  · simp [jsonLine, NEWLINE, utf8, List.flatMap_append, utf8Char]
+  · intro b hb
+    simp only [utf8, List.mem_flatMap] at hb
+    obtain ⟨c, hc, hbc⟩ := hb
+    have h20 := body_printable env r c hc
+    unfold utf8Char at hbc
+    simp only at hbc
+    split at hbc
+    · simp only [List.mem_cons, List.not_mem_nil, or_false] at hbc; omega
+    · split at hbc
+      · simp only [List.mem_cons, List.not_mem_nil, or_false] at hbc; omega
+      · split at hbc <;> simp only [List.mem_cons, List.not_mem_nil, or_false] at hbc <;> omega
 
 /-- The only newline of the output is the last character (a field value cannot start a new line). -/
 theorem C12_single_newline (env : Env) (r : Record) : (jsonLine env r).count '\n' = 1 := by
@@ -23,6 +56,36 @@ theorem C12_single_newline (env : Env) (r : Record) : (jsonLine env r).count '\n
     exact absurd this (by decide)
   simp [jsonLine, NEWLINE, List.count_append, h]
 
+/-- The reading of "control character" taken here, as a theorem about the escaper: exactly the
+    characters U+0000–U+001F, `"` and `\` are written as an escape sequence (which starts with a
+    backslash and contains nothing below 0x20); every other character — DEL U+007F, the C1 controls
+    U+0080–U+009F, U+2028, U+2029 included — is written raw, as itself. -/
+theorem C12_escaped_exactly (c : Char) :
+    ((c.toNat < 0x20 ∨ c = '"' ∨ c = '\\') →
+        (escapeChar c).head? = some '\\' ∧ 2 ≤ (escapeChar c).length ∧ ∀ x ∈ escapeChar c, 0x20 ≤ x.toNat) ∧
+    (0x20 ≤ c.toNat → c ≠ '"' → c ≠ '\\' → escapeChar c = [c]) := by
+  constructor
+  · intro h
+    have hh : (escapeChar c).head? = some '\\' ∧ 2 ≤ (escapeChar c).length := by
+      unfold escapeChar
+      repeat' split
+      all_goals first
+        | exact ⟨rfl, by simp⟩
+        | (exfalso; rename_i h1 h2 h3 h4 h5 h6 h7 h8
+           rcases h with h | h | h
+           · exact h8 h
+           · exact h1 h
+           · exact h2 h)
+    exact ⟨hh.1, hh.2, escapeChar_printable c⟩
+  · intro h1 h2 h3
+    have e1 : c ≠ '\x08' := by rintro rfl; exact absurd h1 (by decide)
+    have e2 : c ≠ '\x0c' := by rintro rfl; exact absurd h1 (by decide)
+    have e3 : c ≠ '\n' := by rintro rfl; exact absurd h1 (by decide)
+    have e4 : c ≠ '\r' := by rintro rfl; exact absurd h1 (by decide)
+    have e5 : c ≠ '\t' := by rintro rfl; exact absurd h1 (by decide)
+    have e6 : ¬ c.toNat < 0x20 := by omega
+    simp [escapeChar, h2, h3, e1, e2, e3, e4, e5, e6]
+
 /-- The executable one-line check used on the implementation's output accepts the model's output. -/
 theorem C12_one_line_check (env : Env) (r : Record) : oneLine (jsonLine env r) = true := by
   have hb := body_printable env r
@@ -30,8 +93,17 @@ theorem C12_one_line_check (env : Env) (r : Record) : oneLine (jsonLine env r) =
     List.nil_append, List.cons_append, List.all_eq_true, List.mem_reverse, decide_eq_true_eq]
   exact hb
 
-/-- Escaping is inverted exactly by a standard JSON string reader, for every string. -/
-theorem C12_unescape_escape (s : List Char) : unescape (escape s) = some s := unescape_escape s
+/-- "JSON string" is a grammar (Json/Grammar.lean, RFC 8259 §7), and the reader used by the Spec is
+    exactly that grammar: it accepts a body iff the grammar derives it, and returns what it denotes.
+    In particular the grammar gives every body at most one meaning. -/
+theorem C12_string_reader_is_the_grammar (body s : List Char) :
+    (unescape body = some s ↔ JStr body s) ∧ (∀ s', JStr body s → JStr body s' → s = s') :=
+  ⟨unescape_iff_JStr body s, fun _ h h' => JStr_functional h h'⟩
+
+/-- Escaping yields a JSON string body that denotes the text, for every string; equivalently the
+    reader inverts the escaper. -/
+theorem C12_unescape_escape (s : List Char) : JStr (escape s) s ∧ unescape (escape s) = some s :=
+  ⟨JStr_escape s, unescape_escape s⟩
 
 /-- Hence two different texts never have the same escaped form. -/
 theorem C12_escape_injective (s t : List Char) (h : escape s = escape t) : s = t := by
@@ -39,16 +111,61 @@ theorem C12_escape_injective (s t : List Char) (h : escape s = escape t) : s = t
   rw [h, unescape_escape] at this
   exact (Option.some.inj this).symm
 
+/-- The message is handed over by its `Display` in pieces (`collect_str` escapes piece by piece);
+    the emitted value depends on the concatenated text only: however the text is cut into pieces —
+    also inside what would be an escape sequence — the output is the same. -/
+theorem C12_message_pieces_irrelevant (env : Env) (r r' : Record)
+    (hl : r.level = r'.level) (hm : r.message = r'.message) (hp : r.modulePath = r'.modulePath)
+    (hf : r.file = r'.file) (hn : r.line = r'.line) (ht : r.target = r'.target) :
+    jstrPieces r.pieces = jstr r.message ∧ jsonLine env r = jsonLine env r' := by
+  refine ⟨jstrPieces_eq _, ?_⟩
+  simp only [jsonLine, messageMembers, jstrPieces_eq]
+  unfold Record.message at hm
+  rw [hl, hm, hp, hf, hn, ht]
+
+/-- "A single JSON object": by the grammar of Json/Grammar.lean (strings per RFC 8259 §7, unsigned
+    integers, `null`, compact objects) the emitted line is one object followed by one line feed; it
+    denotes the members `membersOf env r` — the keys in declaration order, each with its value, the MDC
+    as a nested object of strings — and nothing else (the grammar gives it no second reading), so
+    every reading of the line yields the record's fields.  Stated without any reader. -/
+theorem C12_line_is_json (env : Env) (r : Record) :
+    JLine (jsonLine env r) (membersOf env r) ∧
+    (∀ ms, JLine (jsonLine env r) ms → ms = membersOf env r) ∧
+    (MdcIsMap env → ∀ ms, JLine (jsonLine env r) ms → toFields ms = some (fieldsOf env r)) := by
+  have h := jsonLine_in_grammar env r
+  refine ⟨h, fun ms hms => JLine_functional hms h, fun hmap ms hms => ?_⟩
+  rw [JLine_functional hms h]
+  exact toFields_membersOf env r hmap
+
+/-- The Spec's line reader is that grammar, no more and no less: it accepts a line — in the check, the
+    implementation's bytes — iff the grammar derives it, and returns the members it denotes. -/
+theorem C12_reader_is_the_grammar (line : List Char) (ms : List (List Char × JVal)) :
+    readLineMembers line = some ms ↔ JLine line ms :=
+  (JLine_iff_read line ms).symm
+
 /-- Structure: read back, the object has exactly the members `membersOf env r` — the keys in the
-    fixed declaration order, each with its value, the MDC as a nested map in iteration order. -/
+    fixed declaration order, each with its value, the MDC entries in iteration order. -/
 theorem C12_members_in_order (env : Env) (r : Record) :
     readLineMembers (jsonLine env r) = some (membersOf env r) := readLineMembers_jsonLine env r
 
 /-- Round trip: the line parses back to the record's message, level, target, module path, file,
     line, thread name and MDC entries exactly (and to the time text and thread id it was given). -/
-theorem C12_fields_roundtrip (env : Env) (r : Record) :
+theorem C12_fields_roundtrip (env : Env) (r : Record) (h : MdcIsMap env) :
     readObj (jsonLine env r) = some (fieldsOf env r) := by
-  simp [readObj, readLineMembers_jsonLine, toFields_membersOf]
+  simp [readObj, readLineMembers_jsonLine, toFields_membersOf env r h]
+
+/-- The MDC comes back as the map it is: same set of keys, every key with its value; and the reader
+    refuses an `mdc` object that repeats a key (so "entries exactly" is a statement about maps). -/
+theorem C12_mdc_map_semantics (env : Env) (r : Record) :
+    (MdcIsMap env → ∃ f, readObj (jsonLine env r) = some f ∧ sameMap f.mdc env.mdc = true ∧
+        (∀ k, f.mdc.lookup k = env.mdc.lookup k) ∧ f.mdc.length = env.mdc.length) ∧
+    (¬ MdcIsMap env → readObj (jsonLine env r) = none) := by
+  constructor
+  · intro h
+    refine ⟨fieldsOf env r, C12_fields_roundtrip env r h, ?_, fun _ => rfl, rfl⟩
+    exact sameMap_self env.mdc h
+  · intro h
+    simp [readObj, readLineMembers_jsonLine, toFields_membersOf_dup env r h]
 
 /-- Absent module path, file and line are omitted: the keys of the emitted object are exactly
     `expectedKeys r`, which contains an optional key iff the field is present. -/
@@ -61,10 +178,10 @@ theorem C12_absent_omitted (env : Env) (r : Record) :
   exact ⟨by simp [keysOf, readLineMembers_jsonLine, membersOf_keys], h.1, h.2.1, h.2.2⟩
 
 /-- Never a placeholder: an absent optional field reads back as absent, a present one as itself. -/
-theorem C12_no_placeholder (env : Env) (r : Record) :
+theorem C12_no_placeholder (env : Env) (r : Record) (h : MdcIsMap env) :
     (readObj (jsonLine env r)).map (fun f => (f.modulePath, f.file, f.line))
       = some (r.modulePath, r.file, r.line) := by
-  rw [C12_fields_roundtrip]; rfl
+  rw [C12_fields_roundtrip env r h]; rfl
 
 /-- The level is written as its upper-case name, and the name determines the level. -/
 theorem C12_level_names (l : Level) :
@@ -77,59 +194,39 @@ theorem C12_level_names (l : Level) :
   intro l'; cases l <;> cases l' <;> decide
 
 /-- The model's output satisfies the executable specification that the driver evaluates on the
-    implementation's output. -/
-theorem C12_model_satisfies_spec (env : Env) (r : Record) : specLine env r (jsonLine env r) = .ok := by
-  simp [specLine, C12_one_line_check, readLineMembers_jsonLine, toFields_membersOf, fieldsOf]
+    implementation's output (no false alarm when code and model agree). -/
+theorem C12_model_satisfies_spec (env : Env) (r : Record) (h : MdcIsMap env) :
+    specLine env r (jsonLine env r) = .ok := by
+  have hs := sameMap_self env.mdc h
+  simp [specLine, C12_one_line_check, readLineMembers_jsonLine, toFields_membersOf env r h, fieldsOf, hs]
 
-/-- History independence (the sequence-level law): for every history of encodes on one thread with
-    one encoder — whatever the earlier steps were and however they ended (writer error after any
-    number of bytes, failing `Display`, success) — every step's result is what the same step yields on
-    its own; every successful step returns `Ok` and delivers exactly its own record's line; hence the
-    outputs of the successful steps are `jsonLine` mapped over them.  (Immediate in the model, where
-    the encoder carries the empty state; stated so that the claim and its tie to the code — the
-    `seq` cases of the correspondence check — are visible.) -/
-theorem C12_history_independent (steps : List Step) :
-    (∀ (before after : List Step) (s : Step), steps = before ++ s :: after →
-        (runHistory {} steps)[before.length]? = some (encodeStep {} s).2) ∧
-    (∀ (before after : List Step) (s : Step), steps = before ++ s :: after → succeeds s = true →
-        (runHistory {} steps)[before.length]?
-          = some { kind := .ok, received := utf8 (jsonLine s.env s.record) }) ∧
+/-- Bookkeeping about the model, NOT evidence about the code: in the model the encoder carries the
+    empty state (`JsonEncoder(())`, no static, no thread-local), so a history of encodes factors into
+    its steps by construction.  Whether the real encoder carries nothing from one encode to the next
+    is established only by the `seq` correspondence cases (every completed step is compared with its
+    own record's line and with what a fresh thread and encoder emit).  Not counted as an obligation. -/
+theorem Model_C12_history_factorises (steps : List Step) :
+    runHistory {} steps = steps.map (fun s => (encodeStep {} s).2) ∧
     ((steps.zip (runHistory {} steps)).filter (fun p => succeeds p.1)).map (·.2.received)
       = (steps.filter succeeds).map (fun s => utf8 (jsonLine s.env s.record)) := by
-  have hat : ∀ (before after : List Step) (s : Step), steps = before ++ s :: after →
-      (runHistory {} steps)[before.length]? = some (encodeStep {} s).2 := by
-    intro before after s h
-    subst h
-    simp [runHistory_eq_map]
-  refine ⟨hat, ?_, ?_⟩
-  · intro before after s h hs
-    rw [hat before after s h]
-    have hk := kind_of_succeeds s hs
-    have hr : (encodeStep {} s).2.received = utf8 (jsonLine s.env s.record) := received_of_succeeds s hs
-    cases hres : (encodeStep {} s).2 with
-    | mk kind received =>
-      rw [hres] at hk hr
-      simp only at hk hr
-      rw [hk, hr]
-  · rw [runHistory_eq_map]
-    induction steps with
-    | nil => rfl
-    | cons s rest ih =>
-      have ih' := ih (by
-        intro before after s' h
-        subst h
-        simp [runHistory_eq_map])
-      simp only [List.map_cons, List.zip_cons_cons, List.filter_cons]
-      by_cases hs : succeeds s = true
-      · have hr : (encodeStep {} s).2.received = utf8 (jsonLine s.env s.record) := received_of_succeeds s hs
-        simp only [hs, if_true, List.map_cons, hr]
-        rw [ih']
-      · simp only [hs, Bool.false_eq_true, if_false]
-        exact ih'
+  refine ⟨runHistory_eq_map {} steps, ?_⟩
+  rw [runHistory_eq_map]
+  induction steps with
+  | nil => rfl
+  | cons s rest ih =>
+    simp only [List.map_cons, List.zip_cons_cons, List.filter_cons]
+    by_cases hs : succeeds s = true
+    · have hr : (encodeStep {} s).2.received = utf8 (jsonLine s.env s.record) := received_of_succeeds s hs
+      simp only [hs, if_true, List.map_cons, hr]
+      rw [ih]
+    · simp only [hs, Bool.false_eq_true, if_false]
+      exact ih
 
-/-- An encode that is cut short (writer error after `k` bytes, or a `Display` that gives up after
-    `n` characters, or both) has delivered a prefix of its own record's line, no longer than the writer
-    allowed; the executable clause used on the implementation's bytes accepts the model's bytes. -/
+/-- A relation between two functions of the model (used by the `seq` correspondence cases; the clause
+    `specCutStep` is defined through the model's line, so an "ok" on a cut step is a correspondence
+    result, not an independent specification result): an encode that is cut short — writer error after
+    `k` bytes, or a `Display` that gives up after `n` characters, or both — has delivered a prefix of
+    its own record's complete line, no longer than the writer allowed. -/
 theorem C12_cut_output_is_prefix (s : Step) :
     received s <+: utf8 (jsonLine s.env s.record) ∧
     (∀ k, s.writer = .failAfter k → (received s).length ≤ k) ∧
@@ -177,7 +274,7 @@ example : unescape ['a', '"', 'b'] = none := by decide +kernel
 example : unescape ['\\'] = none := by decide +kernel
 
 def env0 : Env := { time := ['T'], thread := none, threadId := 7, mdc := [(['k', '\n'], ['v', '"'])] }
-def r0 : Record := { level := .warn, message := ['a', '\n', '"', '\\', '\u2028'], modulePath := none, file := some ['f'], line := some 42, target := ['t'] }
+def r0 : Record := { level := .warn, pieces := [['a', '\n'], ['"'], [], ['\\', '\u2028']], modulePath := none, file := some ['f'], line := some 42, target := ['t'] }
 
 def line0 : List Char :=
     ['{', '"', 't', 'i', 'm', 'e', '"', ':', '"', 'T', '"', ',', '"', 'l', 'e', 'v', 'e', 'l', '"',
@@ -248,8 +345,51 @@ example : (runHistory {} hist0).map (·.kind) = [.ioErr, .displayFailed, .ok] :=
 
 /-- what a leaking scratch buffer would emit for the third step (message = earlier text + own text)
     is rejected for that step's record -/
-example : specLine env0 r0 (jsonLine env0 { r0 with message := r0.message ++ r0.message }) = .fail "message" := by
-  simp only [specLine, C12_one_line_check, readLineMembers_jsonLine, toFields_membersOf]
+example : specLine env0 r0 (jsonLine env0 { r0 with pieces := r0.pieces ++ r0.pieces }) = .fail "message" := by
+  simp only [specLine, C12_one_line_check, readLineMembers_jsonLine]
   decide +kernel
+
+/-- the grammar is not trivial: a raw line feed, a lone surrogate and an unknown escape have no
+    reading; a surrogate pair and the optional `\/` escape have one -/
+example : ¬ ∃ s, JStr ['a', '\n'] s := by
+  rintro ⟨s, h⟩
+  have h' := (unescape_iff_JStr _ _).mpr h
+  rw [show unescape ['a', '\n'] = none by decide +kernel] at h'
+  cases h'
+example : ¬ ∃ s, JStr ['\\', 'u', 'd', '8', '3', 'd'] s := by
+  rintro ⟨s, h⟩
+  have h' := (unescape_iff_JStr _ _).mpr h
+  rw [show unescape ['\\', 'u', 'd', '8', '3', 'd'] = none by decide +kernel] at h'
+  cases h'
+example : JStr ['\\', 'u', 'd', '8', '3', 'd', '\\', 'u', 'D', 'E', '0', '0', '\\', '/'] [Char.ofNat 0x1f600, '/'] :=
+  (unescape_iff_JStr _ _).mp (by decide +kernel)
+example : ¬ ∃ ms, JLine lineRawNewline ms := by
+  rintro ⟨ms, h⟩
+  have h' := (JLine_iff_read _ _).mp h
+  rw [show readLineMembers lineRawNewline = none by decide +kernel] at h'
+  cases h'
+
+/-- the hypotheses are satisfiable: `env0`'s MDC is a map, and so is the two-entry one below -/
+def env2 : Env := { env0 with mdc := [(['a'], ['1']), (['b'], ['2', '\n'])] }
+def env2' : Env := { env0 with mdc := [(['b'], ['2', '\n']), (['a'], ['1'])] }
+example : MdcIsMap env0 ∧ MdcIsMap env2 ∧ MdcIsMap env2' := by decide
+
+/-- map semantics: an implementation that wrote the MDC entries in another order still satisfies the
+    specification; one that repeated a key, lost an entry or changed a value does not -/
+example : specLine env2 r0 (jsonLine env2' r0) = .ok := by
+  have h1 : natDigits 42 = ['4', '2'] := by
+    rw [natDigits_ge 42 (by decide), natDigits_lt 4 (by decide)]; rfl
+  have h2 : natDigits 7 = ['7'] := natDigits_lt 7 (by decide)
+  simp only [jsonLine, messageMembers, optMember, env0, env2, env2', r0, h1, h2]
+  decide +kernel
+example : readObj (jsonLine { env0 with mdc := [(['k'], ['a']), (['k'], ['b'])] } r0) = none :=
+  (C12_mdc_map_semantics _ r0).2 (by decide)
+example : sameMap [(['a'], ['1'])] [(['a'], ['1']), (['b'], ['2'])] = false ∧
+    sameMap [(['a'], ['1']), (['b'], ['3'])] [(['a'], ['1']), (['b'], ['2'])] = false := by decide
+
+/-- pieces: `r0`'s message is handed over as `a\n` · `"` · (empty) · `\` U+2028; cutting the same
+    text elsewhere — here right between a backslash and an `n` — changes nothing -/
+example : jsonLine env0 { r0 with pieces := [['a', '\n', '"', '\\'], [' ']] } = jsonLine env0 r0 :=
+  (C12_message_pieces_irrelevant env0 _ r0 rfl (by decide) rfl rfl rfl rfl).2
 
 end Log4rs.Json
